@@ -18,3 +18,25 @@ func debugDump(p *Program, arg string) int {
 	fmt.Printf("%d functions\n", n)
 	return 0
 }
+
+// debugTaint prints the taint trail of field nodes whose name contains arg.
+func debugTaint(p *Program, arg string) int {
+	for _, g := range buildTaint(p).gs {
+	fmt.Println("== graph", g.side, len(g.nodes), "nodes")
+	for i, n := range g.nodes {
+		f, ok := n.(fieldNode)
+		if !ok || !strings.Contains(string(f), arg) {
+			continue
+		}
+		fmt.Printf("%s tainted=%v\n", f, g.tainted[i])
+		if g.tainted[i] {
+			k := 0
+			for n := i; n >= 0 && k < 40; n = int(g.taintBy[n]) {
+				fmt.Printf("    <- %s\n", g.nodeString(n))
+				k++
+			}
+		}
+	}
+	}
+	return 0
+}
